@@ -22,7 +22,7 @@ TIMEOUT = {"quick": 600, "thorough": 3000}
 
 
 def cases(tier, seed):
-    n = 20 if tier == "quick" else 300
+    n = 20 if tier == "quick" else 700
     cs = workload.reader_population(n, seed + 1000, ndims=(3,), max_levels=3, max_fields=4,
                                     payloads=("random", "special", "nearconst"))
     for i, c in enumerate(cs):
